@@ -20,7 +20,8 @@ ID = 'C12'
 BOUNDS = {
     'quick': 'slabs 1..2 x halos per slab in {0,1,2} x particles per slab in {0,1}, all field values free, ids free distinct ints in any '
              'order; flags want_AB / want_shear / want_ranks / want_expvel and the tracer set (file-name variant) over 6 combinations; '
-             'chunking (n_chunks, chunk) in {(1,-1), (1,0), (2,1)}',
+             'chunking (n_chunks, chunk) in {(1,-1), (1,0), (2,1)}'
+             '; also: _searchsorted_parallel under the race monitor; integer-to-float store monitor',
     'thorough': 'quick plus 3 slabs, 2 particles per slab, all 16 flag combinations',
 }
 OUTSIDE = 'HDF5/ASDF containers (stubs); more slabs/halos than the bound (the concatenate-then-permute structure does not depend on the count)'
